@@ -319,6 +319,13 @@ func (r *replica) runOn(w *world, raws [][]byte, tr *Rng) (res *abci.ResponseFin
 	if err := TwinCommit(r.c); err != nil {
 		return nil, err
 	}
+	if r.cfg.CheckTx && tr.Chance(50) {
+		// the mempool re-checks what it still holds after every commit (ReCheckTx): here the block's own transactions, now stale
+		for _, bz := range raws {
+			_, _ = r.c.CheckTx(bz, true)
+			w.side.Count("traffic:recheck_tx")
+		}
+	}
 	if tc.Historic {
 		w.historicTraffic(r, tr)
 	}
